@@ -1,6 +1,7 @@
 """C13 — a panicking handler fails only its own call. Theorems: Props_C13.v. Correspondence: http-bodies
-(5 panic payload kinds, single and inside batches next to healthy calls, escaped panics recorded)."""
+(7 panic payload kinds, single and inside batches next to healthy calls, escaped panics recorded)."""
 import C09
+import C10
 
 PROPS = "Props_C13"
 
@@ -10,6 +11,10 @@ def run(res):
     if cases is not None:
         n = sum(1 for c in cases if any(i["name"].startswith("Panic") for i in c["invs"]))
         res.add_cov(panicking_handler_runs=n)
+        # over WebSocket: H.Panic frames with and without ids among other calls, a subscription and an in-flight call on the
+        # same connection; R.Panic frames to a client whose own (reverse) handler panics; the process must survive and keep
+        # answering (worker subprocess), the panicking call alone gets the error
+        C10.ws_frames(res)
         res.assumptions.append("Go's recover semantics; runtime-fatal errors (concurrent map write, stack overflow) are not recoverable panics and out of scope")
 
 
